@@ -125,7 +125,15 @@ func (w *World) roles(f *ssa.Function) []Role {
 				out[i] = RoleOperand
 			}
 		case isDecimalPtr(t):
-			if (recvType == "Context" || recvType == "ErrDecimal" || recvType == "Rounder") && !firstDecimalSeen && firstDecimalIsOperand[name] == "" {
+			readOnlyNew := false
+			if s, ok := w.sums[f]; ok && !gdaOperations[f.Name()] && i < len(s.Writes) && len(s.Writes[i]) == 0 && f.Signature.Results().Len() > 0 {
+				// a method added to the API that never writes its first Decimal (a predicate such as
+				// IsSubnormal(x)): the destination convention does not apply to it
+				if b, isB := f.Signature.Results().At(0).Type().Underlying().(*types.Basic); isB && b.Kind() == types.Bool {
+					readOnlyNew = true
+				}
+			}
+			if (recvType == "Context" || recvType == "ErrDecimal" || recvType == "Rounder") && !firstDecimalSeen && firstDecimalIsOperand[name] == "" && !readOnlyNew {
 				out[i] = RoleDest
 			} else {
 				out[i] = RoleOperand
